@@ -307,8 +307,8 @@ C10 = dict(
          'rotations, eigenvalue bookkeeping) compared bit for bit with the model at Float (eigenvalues and eigenvector matrix), and both '
          'solvers through the residual oracle (finite, E A E^T = diag, E E^T = 1 within 1e-12 / 1e-8 of ||A||)',
     trusted=['GMP exact rationals', 'glibc sqrt'],
-    assumptions=['convergence of the sweep and the numeric tolerances are explored, not proved; the complex solver is modelled and compared, its invariants are not proved'],
-    partial='convergence of the real solver within 50 sweeps and its accuracy 1e-12 in floating point (the theorems are exact-arithmetic invariants and the eigen-decomposition at the sum == 0 exit); for the complex Hermitian solver the model is tied bit for bit but carries no theorem beyond the single rotation; its accuracy 1e-8 and the scale independence of its thresholds (known finding)',
+    assumptions=['convergence of the sweep and the numeric tolerances are explored, not proved; convergence and floating-point accuracy of both solvers'],
+    partial='convergence of either solver within 50 sweeps and the accuracies 1e-12 / 1e-8 in floating point (the theorems are exact-arithmetic invariants and the eigen-decomposition at the sum == 0 exit, for the real and the complex solver); the scale independence of the complex thresholds in floating point (known finding)',
 )
 
 SPECS = {'C09': C09, 'C10': C10}
